@@ -193,30 +193,13 @@ def check_dead_tests(ctx, fx):
     ctx.floor("I6", n, 8, "comparisons of a path against a named constant in the scheme/host/port setters")
 
 
-def check(ctx, fx):
-    check_dead_tests(ctx, fx)
-    # ---- I1 ----
-    n1 = 0
-    for cls in TYPES:
-        for nm in ("set_username", "set_password", "set_port"):
-            f = fx.fn1("%s::%s" % (cls, nm))
-            mon = GuardMonitor("cannot_have_credentials_or_port")
-            eng = Engine(fx, mon)
-            eng.run(f, {"this": "@"}, False)
-            n1 += 1
-            ctx.check("I1", "%s::%s mutates only behind !cannot_have_credentials_or_port()" % (cls, nm),
-                      not mon.bad and mon.muts > 0, "%d mutation event(s), all guarded" % mon.muts,
-                      "mutates the URL before (or without) the cannot_have_credentials_or_port() refusal: %s"
-                      % "; ".join("%s at %s" % (t, l.replace("/repo/", "")) for l, t, q in mon.bad[:3]),
-                      where=f["loc"].replace("/repo/", ""))
-    ctx.floor("I1", n1, 6, "credential/port setters")
-
-    # ---- I2 ----
+def check_scheme_copies(ctx, fx, rule="I2"):
+    """The four copies (fast/slow arm x url/url_aggregator) of the state-override block of the scheme setter."""
     copies = {}
     for q in ("ada::url::parse_scheme", "ada::url_aggregator::parse_scheme_with_colon"):
         fs = [f for f in fx.fns(q) if "<true>" in f["key"]]
         if len(fs) != 1:
-            ctx.broken("I2: %s<true> not found" % q)
+            ctx.broken("%s: %s<true> not found" % (rule, q))
         f = fs[0]
         mf = MustFlow(f)
         arms = arm_blocks(f, mf, "is_input_special")
@@ -242,24 +225,47 @@ def check(ctx, fx):
                                                                 "HAS_PORT", "HOST_EMPTY", "HOST_PRESENT", "has_credentials()"))),
                 "elision_conds": sorted(set(c for c in conds if c in ("urls_scheme_port", "PORT_IS_DEFAULT"))),
                 "init": init, "clears": bool(clears), "f": f}
-    ctx.floor("I2", len(copies), 4, "copies of the state-override block")
+    ctx.floor(rule, len(copies), 4, "copies of the state-override block")
     ref_want = {"SPECIALNESS_CHANGES", "NEW_IS_FILE", "OLD_IS_FILE", "HAS_PORT", "HOST_EMPTY", "has_credentials()"}
     for k, d in sorted(copies.items()):
         name = "%s %s arm" % k
         got = set(d["refusals"]) - {"HOST_PRESENT"}
-        ctx.check("I2", "%s: three state-override refusals" % name, got == ref_want, ", ".join(sorted(got)),
+        ctx.check(rule, "%s: three state-override refusals" % name, got == ref_want, ", ".join(sorted(got)),
                   "refusal conditions present: %s; expected %s (special<->non-special, file with credentials/port, file with "
                   "empty host)" % (sorted(got), sorted(ref_want)), where=d["f"]["loc"].replace("/repo/", ""))
-        ctx.check("I2", "%s: default port of the *new* scheme is looked up on the URL" % name,
+        ctx.check(rule, "%s: default port of the *new* scheme is looked up on the URL" % name,
                   d["init"] == "get_special_port()", str(d["init"]),
                   "urls_scheme_port is initialised with `%s` instead of the URL's own get_special_port() (after the scheme "
                   "was replaced): the default-port elision of this copy no longer sees the new scheme's default" % d["init"],
                   where=d["f"]["loc"].replace("/repo/", ""))
-        ctx.check("I2", "%s: elision compares and clears the port" % name,
+        ctx.check(rule, "%s: elision compares and clears the port" % name,
                   d["elision_conds"] == ["PORT_IS_DEFAULT", "urls_scheme_port"] and d["clears"],
                   "if (urls_scheme_port) if (port == urls_scheme_port) clear",
                   "default-port elision incomplete: conditions %s, clears port: %s" % (d["elision_conds"], d["clears"]),
                   where=d["f"]["loc"].replace("/repo/", ""))
+
+
+
+def check(ctx, fx):
+    check_dead_tests(ctx, fx)
+    # ---- I1 ----
+    n1 = 0
+    for cls in TYPES:
+        for nm in ("set_username", "set_password", "set_port"):
+            f = fx.fn1("%s::%s" % (cls, nm))
+            mon = GuardMonitor("cannot_have_credentials_or_port")
+            eng = Engine(fx, mon)
+            eng.run(f, {"this": "@"}, False)
+            n1 += 1
+            ctx.check("I1", "%s::%s mutates only behind !cannot_have_credentials_or_port()" % (cls, nm),
+                      not mon.bad and mon.muts > 0, "%d mutation event(s), all guarded" % mon.muts,
+                      "mutates the URL before (or without) the cannot_have_credentials_or_port() refusal: %s"
+                      % "; ".join("%s at %s" % (t, l.replace("/repo/", "")) for l, t, q in mon.bad[:3]),
+                      where=f["loc"].replace("/repo/", ""))
+    ctx.floor("I1", n1, 6, "credential/port setters")
+
+    # ---- I2 ----
+    check_scheme_copies(ctx, fx, "I2")
 
     # ---- I3 ----
     sk = {}
